@@ -556,6 +556,19 @@ class PairDataset:
         return cls._cls(items)
 
 
+def draw_only():
+    """a stochastic IMAGE-ONLY transform of the harness: consumes one draw of its generator, leaves the image as it is
+    (stands for colour jitter & co., which sit between the paired transforms of real segmentation pipelines)"""
+    from kappadata.transforms.base.kd_stochastic_transform import KDStochasticTransform
+
+    class DrawOnly(KDStochasticTransform):
+        def __call__(self, x, ctx=None):
+            self.rng.random()
+            return x
+
+    return DrawOnly()
+
+
 def build_pipeline(cfg):
     """the segmentation pipeline of the repository's own integration test, parametrised"""
     from kappadata.transforms.semseg.kd_semseg_pad import KDSemsegPad
@@ -576,6 +589,8 @@ def build_pipeline(cfg):
             ts.append(KDSemsegRandomHorizontalFlip(p=0.5))
         elif step == "pad":
             ts.append(KDSemsegPad(size=(cfg["th"], cfg["tw"])))
+        elif step == "draw":
+            ts.append(draw_only())
         else:
             raise ValueError(step)
     return ts
@@ -1002,7 +1017,8 @@ def gen_pairs(r, quick):
     for (th, tw, H, W) in [(2, 3, 4, 6), (3, 2, 6, 4), (2, 2, 5, 4), (4, 4, 8, 6), (2, 4, 3, 8)]:
         out.append(("mc", dict(th=th, tw=tw), [(H, W, 1)]))
     pipes = [["rresize", "crop", "flip", "pad"], ["resize", "crop", "pad"], ["flip", "pad"], ["crop", "flip"], ["rresize", "flip"],
-             ["crop", "pad"], ["rresize", "crop", "flip", "pad"]]
+             ["crop", "pad"], ["rresize", "crop", "flip", "pad"], ["draw", "crop", "flip"], ["rresize", "draw", "crop", "pad"],
+             ["draw", "flip", "pad"], ["draw", "rresize", "draw", "flip"]]
     for _ in range(450 * m):
         steps = r.choice(pipes)
         bh, bw = r.choice([(8, 4), (4, 8), (6, 6), (12, 6)])
